@@ -61,6 +61,11 @@ type Worker struct {
 	Vals []uint64
 	Body []Stmt
 	Out  *Expr
+	// IO registers of the worker's own processor, written once per round with the value it sends on:
+	// Link: an output wired by global id to an input of main (a processor-to-processor bond; main reads it into
+	// a variable nothing else uses, the value seen there depends on timing); ExtOut: an external output.
+	// When both exist the link is declared first.
+	Link, ExtOut bool
 }
 
 type Program struct {
@@ -72,6 +77,9 @@ type Program struct {
 	Funcs   []Func
 	Workers []Worker
 	Chains  [][]int // each chain lists worker indices: main -> w -> w ... -> main over unbuffered channels
+	// Nested[c]: the workers of chain c are not all started by main: main starts the first one, every worker
+	// declares the channel to its successor itself and starts it before entering its loop
+	Nested []bool
 	// ChanDeclRev: main declares its channel variables in the reverse of the order it hands them to the workers
 	ChanDeclRev bool
 	Init    []Stmt
@@ -80,6 +88,7 @@ type Program struct {
 	// features present (for counters and signatures)
 	HasFor, HasBreak, HasContinue, HasCall, HasShadow bool
 	HasGo, HasGoValArgs, HasChanBlock, HasIfInit      bool
+	HasWorkerIO                                       bool
 	// ChanBlockFirst: main starts with a block that declares (and releases) a channel before the channels
 	// handed to the workers are declared
 	ChanBlockFirst bool
@@ -340,6 +349,14 @@ func Generate(t *simrt.Tape) *Program {
 		g.vars, g.nout, g.ncall = wk.Vars, 0, nf
 		wk.Body = g.stmts(t.Draw(4), depth, false)
 		wk.Out = g.expr(2)
+		if t.Draw(4) == 1 {
+			wk.Link = true
+			p.HasWorkerIO = true
+		}
+		if t.Draw(3) == 1 {
+			wk.ExtOut = true
+			p.HasWorkerIO = true
+		}
 		p.Workers = append(p.Workers, wk)
 		p.HasGo = true
 		if w == 0 || t.Draw(2) == 1 {
@@ -347,6 +364,9 @@ func Generate(t *simrt.Tape) *Program {
 		} else {
 			p.Chains[len(p.Chains)-1] = append(p.Chains[len(p.Chains)-1], w)
 		}
+	}
+	for range p.Chains {
+		p.Nested = append(p.Nested, t.Draw(3) == 1)
 	}
 	if nw > 0 && t.Draw(3) == 1 {
 		p.ChanDeclRev = true
@@ -491,19 +511,62 @@ func (p *Program) Source() string {
 		p.stmtsSrc(&b, f.Vars, f.Body, "\t")
 		fmt.Fprintf(&b, "\treturn %s\n}\n\n", p.exprSrc(f.Vars, f.Ret))
 	}
-	for _, w := range p.Workers {
+	// successor started by the worker itself (nested chains)
+	next := map[int]int{}
+	for c, ch := range p.Chains {
+		if p.Nested[c] {
+			for k := 0; k+1 < len(ch); k++ {
+				next[ch[k]] = ch[k+1]
+			}
+		}
+	}
+	goArgs := func(w int, cin, cout string) string {
+		args := []string{cin, cout}
+		for _, v := range p.Workers[w].Vals {
+			args = append(args, fmt.Sprint(v))
+		}
+		return strings.Join(args, ", ")
+	}
+	for wi, w := range p.Workers {
 		ps := []string{"cin chan " + p.typ(), "cout chan " + p.typ()}
 		for i := 1; i <= w.NVal; i++ {
 			ps = append(ps, w.Vars[i].Name+" "+p.typ())
 		}
 		fmt.Fprintf(&b, "func %s(%s) {\n", w.Name, strings.Join(ps, ", "))
+		sendTo := "cout"
+		if nx, ok := next[wi]; ok {
+			fmt.Fprintf(&b, "\tvar mid chan %s\n", p.typ())
+			sendTo = "mid"
+			_ = nx
+		}
 		fmt.Fprintf(&b, "\tvar %s %s\n", w.Vars[0].Name, p.typ())
 		for _, v := range w.Vars[1+w.NVal:] {
 			fmt.Fprintf(&b, "\tvar %s %s\n", v.Name, p.typ())
 		}
+		if w.Link {
+			fmt.Fprintf(&b, "\tvar wlink bondgo.Output\n")
+		}
+		if w.ExtOut {
+			fmt.Fprintf(&b, "\tvar wout bondgo.Output\n")
+		}
+		if w.Link {
+			fmt.Fprintf(&b, "\twlink = bondgo.Make(bondgo.Output, %d)\n", 30+wi)
+		}
+		if w.ExtOut {
+			fmt.Fprintf(&b, "\twout = bondgo.Make(bondgo.Output, %d)\n", 20+wi)
+		}
+		if nx, ok := next[wi]; ok {
+			fmt.Fprintf(&b, "\tgo %s(%s)\n", p.Workers[nx].Name, goArgs(nx, "mid", "cout"))
+		}
 		fmt.Fprintf(&b, "\tfor {\n\t\t%s = <-cin\n", w.Vars[0].Name)
 		p.stmtsSrc(&b, w.Vars, w.Body, "\t\t")
-		fmt.Fprintf(&b, "\t\tcout <- %s\n\t}\n}\n\n", p.exprSrc(w.Vars, w.Out))
+		if w.Link {
+			fmt.Fprintf(&b, "\t\tbondgo.IOWrite(wlink, %s)\n", p.exprSrc(w.Vars, w.Out))
+		}
+		if w.ExtOut {
+			fmt.Fprintf(&b, "\t\tbondgo.IOWrite(wout, %s)\n", p.exprSrc(w.Vars, w.Out))
+		}
+		fmt.Fprintf(&b, "\t\t%s <- %s\n\t}\n}\n\n", sendTo, p.exprSrc(w.Vars, w.Out))
 	}
 	b.WriteString("func main() {\n")
 	for i := range p.Outputs {
@@ -512,12 +575,25 @@ func (p *Program) Source() string {
 	for i := range p.Inputs {
 		fmt.Fprintf(&b, "\tvar in%d bondgo.Input\n", i)
 	}
+	anyLink := false
+	for wi, w := range p.Workers {
+		if w.Link {
+			fmt.Fprintf(&b, "\tvar lin%d bondgo.Input\n", wi)
+			anyLink = true
+		}
+	}
+	if anyLink {
+		fmt.Fprintf(&b, "\tvar reg_sink %s\n", p.typ())
+	}
 	if p.ChanBlockFirst {
 		fmt.Fprintf(&b, "\t{\n\t\tvar tc chan %s\n\t}\n", p.typ())
 	}
 	var chdecl []string
 	for c, ch := range p.Chains {
 		for k := 0; k <= len(ch); k++ {
+			if p.Nested[c] && k != 0 && k != len(ch) {
+				continue // declared by the worker that starts its successor
+			}
 			chdecl = append(chdecl, fmt.Sprintf("\tvar c%d_%d chan %s\n", c, k, p.typ()))
 		}
 	}
@@ -537,13 +613,18 @@ func (p *Program) Source() string {
 	for i, o := range p.Inputs {
 		fmt.Fprintf(&b, "\tin%d = bondgo.Make(bondgo.Input, %d)\n", i, o)
 	}
+	for wi, w := range p.Workers {
+		if w.Link {
+			fmt.Fprintf(&b, "\tlin%d = bondgo.Make(bondgo.Input, %d)\n\treg_sink = bondgo.IORead(lin%d)\n", wi, 30+wi, wi)
+		}
+	}
 	for c, ch := range p.Chains {
+		if p.Nested[c] {
+			fmt.Fprintf(&b, "\tgo %s(%s)\n", p.Workers[ch[0]].Name, goArgs(ch[0], fmt.Sprintf("c%d_0", c), fmt.Sprintf("c%d_%d", c, len(ch))))
+			continue
+		}
 		for k, w := range ch {
-			args := []string{fmt.Sprintf("c%d_%d", c, k), fmt.Sprintf("c%d_%d", c, k+1)}
-			for _, v := range p.Workers[w].Vals {
-				args = append(args, fmt.Sprint(v))
-			}
-			fmt.Fprintf(&b, "\tgo %s(%s)\n", p.Workers[w].Name, strings.Join(args, ", "))
+			fmt.Fprintf(&b, "\tgo %s(%s)\n", p.Workers[w].Name, goArgs(w, fmt.Sprintf("c%d_%d", c, k), fmt.Sprintf("c%d_%d", c, k+1)))
 		}
 	}
 	p.stmtsSrc(&b, p.Vars, p.Init, "\t")
@@ -561,6 +642,7 @@ const (
 )
 
 type evalState struct {
+	wout     [][]uint64 // per worker: values written to its external output
 	frames   [][]uint64 // persistent variables of each worker
 	p        *Program
 	mask     uint64
@@ -629,6 +711,9 @@ func (s *evalState) run(ss []Stmt) int {
 					return sigStop
 				}
 				v = s.expr(wk.Out)
+				if wk.ExtOut && len(s.wout[w]) < s.n {
+					s.wout[w] = append(s.wout[w], v)
+				}
 			}
 			s.vars = saved
 			s.vars[st.Var] = v
@@ -697,7 +782,7 @@ func (s *evalState) run(ss []Stmt) int {
 // whether n writes were reached within maxSteps executed statements (a
 // program may legitimately spin in an inner loop for ever; then the writes
 // so far are returned).
-func (p *Program) Eval(n int, maxSteps int) ([][2]uint64, bool) {
+func (p *Program) newEval(n int, maxSteps int) *evalState {
 	s := &evalState{p: p, vars: make([]uint64, len(p.Vars)), n: n, maxSteps: maxSteps}
 	if p.Rsize == 64 {
 		s.mask = ^uint64(0)
@@ -710,12 +795,29 @@ func (p *Program) Eval(n int, maxSteps int) ([][2]uint64, bool) {
 			f[1+i] = v & s.mask
 		}
 		s.frames = append(s.frames, f)
+		s.wout = append(s.wout, nil)
 	}
-	s.run(p.Init)
-	for len(s.out) < n && s.steps < maxSteps {
-		s.run(p.Loop)
+	return s
+}
+
+func (s *evalState) runProgram() {
+	s.run(s.p.Init)
+	for len(s.out) < s.n && s.steps < s.maxSteps {
+		s.run(s.p.Loop)
 	}
+}
+
+func (p *Program) Eval(n int, maxSteps int) ([][2]uint64, bool) {
+	s := p.newEval(n, maxSteps)
+	s.runProgram()
 	return s.out, len(s.out) >= n
+}
+
+// EvalAll is Eval plus, per worker, the values it writes to its external output (one per round it serves).
+func (p *Program) EvalAll(n int, maxSteps int) ([][2]uint64, [][]uint64, bool) {
+	s := p.newEval(n, maxSteps)
+	s.runProgram()
+	return s.out, s.wout, len(s.out) >= n
 }
 
 // RegsOnly reports whether every variable is a register variable (memory
@@ -760,10 +862,16 @@ func (p *Program) Features() []string {
 	add(len(p.Inputs) > 0, "inputs")
 	add(p.HasGo, "goroutines")
 	add(p.HasGoValArgs, "goroutine-value-args")
+	add(p.HasWorkerIO, "goroutine-with-io-registers")
 	add(p.HasChanBlock, "block-scoped-channel")
 	add(p.ChanBlockFirst, "channel-released-before-others-are-declared")
 	add(p.HasIfInit, "if-with-init")
 	add(p.ChanDeclRev, "channels-declared-in-another-order-than-passed")
+	nested := false
+	for c, n := range p.Nested {
+		nested = nested || (n && len(p.Chains[c]) > 1)
+	}
+	add(nested, "goroutine-started-by-a-goroutine")
 	add(!p.RegsOnly(), "memvars")
 	return f
 }
